@@ -5,7 +5,7 @@ CONSTANTS MaxPre = 3 MaxN = 4
   Posts <- PostsSmall
   FlowKinds = {"ctx"}
   Drivers = {"run", "fill", "split"}
-  Places = {"alone", "middle", "afterstop"}
+  Places = {"alone", "afterstop"}
   StopFlag = "per_branch"
   CopyMode = "per_branch"
   Bufs <- BufQuick
